@@ -281,11 +281,16 @@ def record_env(core, dp, np, mode, rnd, f, run, ops, feats, panics, samples):
                     e.submit_cancellations(np.array(lbl["ids"], dtype=u64))
                     lbl["via"] = "submit_cancellations"
                 else:
-                    m = len(lbl["ids"])
-                    ids = e.submit_instructions((np.array([2] * m, dtype=u32), np.array([False] * m, dtype=bool), np.array([0] * m, dtype=u32),
-                                                 np.array([0] * m, dtype=u32), np.array([0] * m, dtype=u32), np.array(lbl["ids"], dtype=u64))).tolist()
+                    # a null row in front and behind; unused fields hold arbitrary values (documented as ignored)
+                    m = len(lbl["ids"]) + 2
+                    junk = tick + 1 if tick > 1 else 7
+                    ids = e.submit_instructions((np.array([0] + [2] * (m - 2) + [0], dtype=u32), np.array([True] * m, dtype=bool), np.array([5] * m, dtype=u32),
+                                                 np.array([9] * m, dtype=u32), np.array([junk] * m, dtype=u32),
+                                                 np.array([(1 << 64) - 2] + lbl["ids"] + [3], dtype=u64))).tolist()
                     lbl["via"] = "submit_instructions"
-                    lbl["ret"] = tr(ids)
+                    lbl["ret"] = tr(ids)[1:-1]
+                    if tr(ids)[0] != -1 or tr(ids)[-1] != -1:
+                        lbl["ret"] = tr(ids)
                 batch += len(lbl["ids"])
             else:
                 e.modify_order(lbl["id"], new_price=None if lbl["p"] == -1 else lbl["p"], new_vol=None if lbl["v"] == -1 else lbl["v"])
@@ -327,6 +332,7 @@ def record_pysim(core, dp, np, rnd, f, run, ops, feats, panics, samples):
     tick = rnd.choice([1, 2, 5])
     step = rnd.choice([10, 100, 1000])
     seed = rnd.randrange(0, 1 << 40)
+    run_seed = rnd.choice([0, 0, 1, rnd.randrange(0, 1 << 30), rnd.randrange(0, 1 << 30), (1 << 63) + 5])
     n_steps = rnd.randrange(2, max(ops, 3))
     na = rnd.randrange(1, 6)
     base = rnd.randrange(5, 60)
@@ -393,13 +399,18 @@ def record_pysim(core, dp, np, rnd, f, run, ops, feats, panics, samples):
 
     agents = [Wrapped(j, RandomAgent(c["i"], c["rate"], (c["tick_lo"], c["tick_hi"]), (c["vol_lo"], c["vol_hi"]), tick)) for j, c in enumerate(cfgs)]
     try:
-        ret = sim_run(env, agents, n_steps, rnd.randrange(0, 1 << 30), show_progress=rnd.random() < 0.3, use_numpy=False)
+        ret = sim_run(env, agents, n_steps, run_seed, show_progress=rnd.random() < 0.3, use_numpy=False)
         x = {"op": "step", "final": True}
         x.update(env_obs(env, "env", dp, np, True))
         out.append(x)
         md = env.get_market_data()
         same = set(ret.keys()) == set(md.keys()) and all(list(ret[k]) == list(md[k]) for k in md)
-        out.append({"op": "sim_end", "returned_market_data": bool(same), "rounds": state["round"]})
+        # the same simulation again (fresh environment and agents, same seeds, no recording): identical orders and trades
+        env2 = core.StepEnv(seed, 0, tick, step, True)
+        agents2 = [RandomAgent(c["i"], c["rate"], (c["tick_lo"], c["tick_hi"]), (c["vol_lo"], c["vol_hi"]), tick) for c in cfgs]
+        sim_run(env2, agents2, n_steps, run_seed, show_progress=False, use_numpy=False)
+        again = tr(env2.get_orders()) == tr(env.get_orders()) and tr(env2.get_trades()) == tr(env.get_trades())
+        out.append({"op": "sim_end", "returned_market_data": bool(same), "rounds": state["round"], "repeat_identical": bool(again), "run_seed": str(run_seed)})
     except BaseException as ex:
         panics.append({"run": run, "what": "bourse.step_sim.run raised %s: %s" % (type(ex).__name__, str(ex)[:200]), "cfg": {"agents": cfgs, "tick": tick, "step": step}})
     for e in out:
